@@ -1434,9 +1434,12 @@ def quota_calls(rng, q, quick):
 def quota_cases(run, rep, rng):
     cfgs = [(600, -1), (1000, 50), (5000, -1), (20000, 1000)]
     terms, meta = [], []
+    work = [(c["quota"], c["limit"], detuple_call(c["call"])) for c in corpus_extra("quota_calls")]
     for q, l in cfgs:
+        work += [(q, l, call) for call in quota_calls(rng, q, run.quick)]
+    for q, l, call in work:
         cfg = quota_cfg(q, l)
-        for call in quota_calls(rng, q, run.quick):
+        if True:
             plain = run_call(call)
             obs = run_call_on(cfg, call)
             fits = fits_quota(call, plain, q, l)
@@ -1531,7 +1534,7 @@ def kind_census(fn, expr, data):
 
 def kind_cases(run, rep, rng):
     terms, meta = [], []
-    inputs = [("a b", " "), ("", "a"), ("abab", "b"), ("a\U0001F600b a", "a")] + [(rstr(rng, 6), rng.choice("ab ")) for _ in range(run.n(4, 40))]
+    inputs = [tuple(p) for p in corpus_extra("kind_inputs")] + [("a b", " "), ("", "a"), ("abab", "b"), ("a\U0001F600b a", "a")] + [(rstr(rng, 6), rng.choice("ab ")) for _ in range(run.n(4, 40))]
     for fn, expr in KIND_FUNCS:
         for s_, x in inputs:
             data = {"s": s_, "x": x}
@@ -1573,7 +1576,7 @@ USE_LAWS = [("equals the list literal", "{Fs} = $.l", True),
 
 
 def use_laws(run, rep, rng):
-    subjects = ["", "a", "ab", "a b", "ba ab", "aaa", "é a"] + [rstr(rng, 6, "ab ") for _ in range(run.n(5, 60))]
+    subjects = list(corpus_extra("use_subjects")) + ["", "a", "ab", "a b", "ba ab", "aaa", "é a"] + [rstr(rng, 6, "ab ") for _ in range(run.n(5, 60))]
     for fn, f, model in USE_FUNCS:
         for s_ in subjects:
             for name, tmpl, required in USE_LAWS:
@@ -1596,15 +1599,11 @@ def use_laws(run, rep, rng):
                              "observed": v, "required": required, "raw": raw, "found_by": "O"})
 
 
-def classify(failure, known_entries):
-    """F23: split / rightSplit / regex split return a mutable Python list instead of a yaql list (tuple)."""
-    d = failure.data
-    if d.get("kind") in ("collection-kind", "collection-use") and d.get("function") in SPLIT_FAMILY and d.get("raw") == "RKList" \
-            and "finalised" not in d:
-        for k in known_entries:
-            if k.get("id") == "F23":
-                return k.get("line", "F23")
-    return None
+def corpus_extra(key):
+    path = os.path.join(HERE, "corpus", "C19.json")
+    if not os.path.exists(path):
+        return []
+    return json.load(open(path)).get(key, [])
 
 
 def correspondence(run):
